@@ -34,6 +34,14 @@ GO_TIMEOUT = {"quick": 900, "thorough": 3000}
 
 
 def classify(desc, code):
+    # Known finding (known_findings.json): the dual client's SearchValue under back-pressure.  While the caller is not
+    # reading the result channel, answers keep arriving at the WAN sub-search and are processed there; when the caller
+    # reads again, the sub-search that finishes first after having sent something (typically the LAN side, which only
+    # has the local record) makes routing-helpers' Parallel.search cancel all others, and the better values the WAN
+    # sub-search had already processed are never forwarded: the stream ends below a valid value of a processed answer.
+    spec = desc.get("spec") if isinstance(desc, dict) else None
+    if code == 2 and isinstance(spec, dict) and spec.get("client") == "dual" and spec.get("op") == "search" and spec.get("slow_consumer"):
+        return "dual-search-back-pressure-drops-processed-values"
     return None
 
 TECHNIQUE = ("Coq proof (fold invariants over all arrival lists for processValues, record acceptance, local phase, dual merge, public-key "
